@@ -46,22 +46,22 @@ type Exchange struct {
 
 // Truth is what the chip itself knows happened.
 type Truth struct {
-	BACCompleted     bool
-	PACECompleted    bool
-	PACEOid          string
-	PACEParamID      int
-	PACECAM          bool // CAM data was sent with a completed PACE
-	CACompleted      bool // key agreement done and a command under the new keys authenticated
-	CAKeysInstalled  bool
-	PACELastK        []byte // last PACE key-agreement secret the chip derived (fixed-width x-coordinate), for classification only
-	CALastK          []byte // last chip-authentication secret
-	CALastSM         *refcrypto.SM // copy of the session the chip derived in its last chip authentication (initial state)
-	AASigned         int // number of INTERNAL AUTHENTICATE signatures produced
-	AAChallenges     [][]byte
-	SMAborted        int
+	BACCompleted       bool
+	PACECompleted      bool
+	PACEOid            string
+	PACEParamID        int
+	PACECAM            bool // CAM data was sent with a completed PACE
+	CACompleted        bool // key agreement done and a command under the new keys authenticated
+	CAKeysInstalled    bool
+	PACELastK          []byte        // last PACE key-agreement secret the chip derived (fixed-width x-coordinate), for classification only
+	CALastK            []byte        // last chip-authentication secret
+	CALastSM           *refcrypto.SM // copy of the session the chip derived in its last chip authentication (initial state)
+	AASigned           int           // number of INTERNAL AUTHENTICATE signatures produced
+	AAChallenges       [][]byte
+	SMAborted          int
 	UnprotectedWhileSM int
-	ReadBinaries     int
-	Selects          int
+	ReadBinaries       int
+	Selects            int
 }
 
 // ReadReq describes a READ BINARY the chip is about to answer.
@@ -99,15 +99,15 @@ type Chip struct {
 	AA   *AAKey
 
 	// state
-	curDF   int // 0 = MF, 1 = LDS1
-	curEF   *EF
-	SM      *refcrypto.SM
+	curDF    int // 0 = MF, 1 = LDS1
+	curEF    *EF
+	SM       *refcrypto.SM
 	smByPACE bool
 	bacRndIC []byte
-	pace    *paceState
-	ca      *caState
-	Truth   Truth
-	Log     []*Exchange
+	pace     *paceState
+	ca       *caState
+	Truth    Truth
+	Log      []*Exchange
 }
 
 func NewChip() *Chip {
